@@ -103,6 +103,34 @@ def gen(rng, tier):
         if rng.random() < 0.5:
             ops.append(["build", KN, 0])
         cases.append({"frames": _pool(rng), "ops": ops, "kind": "namespace-array"})
+    # a training column whose mean is EXACTLY zero (v, -v pairs; z - its own mean for scale): a learnt parameter
+    # equal to 0.0 is a learnt parameter, later frames are encoded with it and never re-learn it
+    for i in range(60 if tier == "thorough" else 10):
+        frames = _pool(rng)
+        half = [rng.randint(1, 9) for _ in range(7)]
+        sym = [str(v) for v in half] + [str(-v) for v in half]
+        rng.shuffle(sym)
+        for col in frames[0]["columns"]:
+            if col["name"] == "x":
+                col["values"] = sym
+            if col["name"] == "w":
+                col["values"] = [str(-int(v)) if "/" not in v else "0" for v in sym]   # x + w == 0 or x: mean 0 too
+        ops = [["build", rng.choice([1, 4, 8]), 0], ["common", 0, rng.choice([2, 3])], ["common", 0, rng.choice([1, 2, 3])],
+               [rng.choice(["common", "group"]), 0, rng.choice([1, 3])]]
+        cases.append({"frames": frames, "ops": ops, "kind": "zero-mean"})
+    # frames that hold EXACTLY the columns the formula uses (nothing to trim away), with missing values: the
+    # caller's frame is still the caller's -- values, rows and index are the same after any number of designs
+    for i in range(40 if tier == "thorough" else 8):
+        frames = _pool(rng)
+        fidx = rng.choice([0, 1, 9])
+        keep = {0: ["y", "x", "f"], 1: ["y", "x", "g"], 9: ["y", "f", "x", "o"]}[fidx]
+        frames[0] = {"columns": [dict(c_, values=list(c_["values"])) for c_ in frames[0]["columns"] if c_["name"] in keep]}
+        for c_ in frames[0]["columns"]:
+            if c_["name"] == "x":
+                for r_ in rng.sample(range(len(c_["values"])), 3):
+                    c_["values"][r_] = None
+        ops = [["build", fidx, 0], ["build", fidx, 0], ["common", 1, 0], ["build", fidx, 0]]
+        cases.append({"frames": frames, "ops": ops, "kind": "exact-columns"})
     # a share of short histories is additionally compared with a brand-new interpreter per operation
     for i in range(60 if tier == "thorough" else 12):
         ops = [["build", rng.choice([7, 8, 1, 4, 6, 12, 13]), 0], ["build", rng.choice([7, 8, 1, 4, 6, 12, 13]), 3],
